@@ -212,6 +212,18 @@ class OpGen:
                 if "typename" in scope:
                     continue
                 scope["typename"] = "__typename"
+                if inline_depth == 0 and in_fragment is None and d.bool(0.3) and (
+                        not is_union or d.enabled("sel.aliased_typename_with_narrowing")):
+                    # (a union position always gets one class per member: KF-C04-8 like explicit narrowing)
+                    free = [a for a in ALIASES if canon(a) not in scope and canon(a) != "typename"]
+                    if free:
+                        al = d.choice(free)
+                        scope[canon(al)] = f"{al}: __typename"
+                        items.append(f"{al}: __typename")
+                        d.tag("op.aliased_typename")
+                        if is_abstract_type(parent):
+                            scope["__ta"] = True  # only aliased __typename at an abstract position
+                        continue
                 items.append("__typename")
                 continue
             fdef = fields[fname]
@@ -279,6 +291,8 @@ class OpGen:
                 if not d.enabled(f"sel.inline_{rel}_{pk}"):
                     continue
                 if inline_depth > 0 and not d.enabled("sel.nested_inline"):
+                    continue
+                if scope.get("__ta") and not d.enabled("sel.aliased_typename_with_narrowing"):
                     continue
                 mark = self._mark()
                 top_guard = in_fragment is not None and depth == 1 and inline_depth == 0 and self._guard is None
@@ -388,6 +402,8 @@ class OpGen:
                         and not d.enabled("sel.spread_same_abs_with_narrowing"):
                     continue
                 creates_narrowing = rel != "same" or fr["narrowing_deep"]
+                if scope.get("__ta") and not d.enabled("sel.aliased_typename_with_narrowing"):
+                    continue
                 if is_abstract_type(parent) and (
                     (mode == "mixin" and narrowing) or (creates_narrowing and same_spread)
                 ) and not d.enabled("sel.spread_same_abs_with_narrowing"):
